@@ -5,6 +5,17 @@ V = os.path.dirname(os.path.dirname(os.path.abspath(__file__)))
 ALL = ["C%02d" % i for i in range(1, 20)]
 
 CLAIMED = {
+ "C01": dict(
+   text="Lean 4 theorems over an executable model of the FramedTcp send loop (prefix/payload switch), the shared receive "
+        "loop and the decoder, and of the WebSocket adapter loop around an ideal read-ahead codec: Sent implies exactly "
+        "one canonical frame on the wire for every partial-write/WouldBlock pattern; WaitNextEvent implies nothing "
+        "readable (socket or codec buffer) is left; end to end over any number of poll events, any segmentation and any "
+        "legal read schedule the callbacks are exactly the sent payloads in order (uses C02's chunking theorem). Tie: "
+        "real loopback runs (node/raw/tungstenite peers, both directions, boundary sizes, bursts, adversarial write "
+        "boundaries) followed by silence, compared with the model's prediction.",
+   ref="DESIGN.md §8 C01, §7 M2",
+   note="Lean kernel + standard axioms; kernel TCP, epoll edge semantics and tungstenite are assumptions; 'bounded time' is monitored with a 4 s deadline, not proved",
+   technique="Lean 4 proof (induction over write/read schedules and poll events; reuse of the decoder theorem) + differential correspondence on real connections"),
  "C02": dict(
    text="Lean 4 theorems over an executable model of integer-encoding's u64 varint and util::encoding::Decoder: "
         "round trip, canonical (shape + minimal), and feed_chunking_independent for every message list and every "
@@ -55,6 +66,24 @@ CLAIMED = {
    ref="DESIGN.md §8 C07, §7 M3",
    note="Lean kernel + standard axioms; crossbeam-channel FIFO/select semantics assumed; timing on a 4 ms grid with 1 ms margins (late runs re-run)",
    technique="Lean 4 proof (case analysis on the model + sortedness invariant by induction over histories) + trace validation"),
+ "C10": dict(
+   text="Lean 4 theorems: a FramedTcp send is one critical section (send lock held for the whole frame), so for any "
+        "number of threads the wire is the concatenation of whole frames in lock order and the receiver decodes exactly "
+        "the sent messages, each once, each thread's in its order; same for Ws (state mutex) — the as-found unlocked loop "
+        "has an interleaving that decodes to garbage (decided in MioModel/AsFound). Tie: multi-thread stress on real "
+        "endpoints with self-describing payloads, judged by the direct oracle and the driver's history predicate.",
+   ref="DESIGN.md §8 C10, §7 M2",
+   note="Lean kernel + standard axioms; Mutex mutual exclusion assumed; that send really holds the lock for the whole frame is tied only by the stress run (sampled schedules)",
+   technique="Lean 4 proof (sections in lock order + decoder theorem) + trace conformance under stress"),
+ "C11": dict(
+   text="Lean 4 theorems over the raw Tcp send and receive loops: Sent implies exactly the buffer on the wire (prefix "
+        "otherwise); every Message chunk is non-empty and at most INPUT_BUFFER_SIZE (regenerated constant); chunks are "
+        "exactly the consumed bytes; WaitNextEvent implies nothing readable is left; end to end over any poll events the "
+        "concatenation of chunks equals the concatenation of what arrived. Tie: loopback runs node/raw peers, sizes "
+        "around 65535, compared by concatenation hash and chunk bounds.",
+   ref="DESIGN.md §8 C11, §7 M2",
+   note="Lean kernel + standard axioms; kernel TCP / epoll semantics assumed",
+   technique="Lean 4 proof (induction over read/write schedules and poll events) + differential correspondence on real connections"),
  "C14": dict(
    text="Lean 4 theorems over a model of the ResourceId bit layout (Nat with explicit 2^64 wrap, the Rust mask/shift "
         "expressions transcribed): field round trip, the accessors partition all 64 bits for every raw value, injectivity, "
